@@ -196,7 +196,7 @@ Proof.
     + left; congruence.
 Qed.
 
-Lemma do_copy_back_frame cands here : forall s o s', do_copy_back cands here s = (o, s') ->
+Lemma do_copy_back_frame cands src here : forall s o s', do_copy_back cands src here s = (o, s') ->
   same_but_files_tape s' s.
 Proof.
   unfold same_but_files_tape.
@@ -204,35 +204,37 @@ Proof.
   - inversion H; subst. repeat split; reflexivity.
   - destruct (pop_fault s) as [flt s1] eqn:Ep. apply pop_fault_frame in Ep as [[A1 [A2 [A3 [A4 [A5 A6]]]]] _].
     destruct flt; [inversion H; subst; repeat split; assumption|].
-    destruct (negb (mem_path (cwd s1 ++ [n]) (files s1))); [inversion H; subst; repeat split; assumption|].
+    destruct (negb (mem_path (src_dir src s1 ++ [n]) (files s1))); [inversion H; subst; repeat split; assumption|].
     apply IH in H; cbn in H. destruct H as [B1 [B2 [B3 [B4 [B5 B6]]]]]. repeat split; congruence.
 Qed.
 
 (* a copy-back loop that finishes normally has put every candidate into `here`, and never removes *)
-Lemma do_copy_back_ok cands here : forall s s', do_copy_back cands here s = (Ok, s') ->
+Lemma do_copy_back_ok cands src here : forall s s', do_copy_back cands src here s = (Ok, s') ->
   (forall n, In n cands -> In (here ++ [n]) (files s')) /\ (forall p, In p (files s) -> In p (files s')).
 Proof.
   induction cands as [|n r IH]; intros s s' H; cbn in H.
   - inversion H; subst. split; [intros n []|auto].
   - destruct (pop_fault s) as [flt s1] eqn:Ep. apply pop_fault_frame in Ep as [_ Ef].
     destruct flt; [discriminate|].
-    destruct (negb (mem_path (cwd s1 ++ [n]) (files s1))); [discriminate|].
+    destruct (negb (mem_path (src_dir src s1 ++ [n]) (files s1))); [discriminate|].
     apply IH in H as [A B]. cbn in B. split.
     + intros m [<-|Hm]; [apply B, In_add_path; left; reflexivity|apply A; exact Hm].
     + intros p Hp. apply B, In_add_path. right. congruence.
 Qed.
 
 (* no injected fault and the callee is (back) in the scratch directory: copy-back cannot fail *)
-Lemma do_copy_back_succeeds cands here tmp : forall s,
-  cwd s = tmp -> tape s = [] -> (forall n, In n cands -> In (tmp ++ [n]) (files s)) ->
-  exists s', do_copy_back cands here s = (Ok, s').
+Lemma do_copy_back_succeeds cands src here tmp : forall s,
+  src_dir src s = tmp -> tape s = [] -> (forall n, In n cands -> In (tmp ++ [n]) (files s)) ->
+  exists s', do_copy_back cands src here s = (Ok, s').
 Proof.
-  induction cands as [|n r IH]; intros s Hc Ht Hin; cbn.
+  induction cands as [|n r IH]; intros s Hc Ht Hin; cbn [do_copy_back].
   - eexists; reflexivity.
   - rewrite pop_fault_tape, Ht.
-    assert (M : mem_path (cwd s ++ [n]) (files s) = true) by (apply mem_path_In; rewrite Hc; apply Hin; left; reflexivity).
-    rewrite M. cbn. apply IH; cbn; try assumption.
-    intros m Hm. apply In_add_path. right. apply Hin. right; exact Hm.
+    assert (M : mem_path (src_dir src s ++ [n]) (files s) = true) by (apply mem_path_In; rewrite Hc; apply Hin; left; reflexivity).
+    rewrite M. cbn [negb]. apply IH.
+    + destruct src; exact Hc.
+    + exact Ht.
+    + intros m Hm. cbn. apply In_add_path. right. apply Hin. right; exact Hm.
 Qed.
 
 Lemma In_kept_candidates kept tmp fs n :
@@ -301,4 +303,401 @@ Lemma work_in_cwd ext c : restores_cwd (wrap (WWorkIn ext) c).
 Proof.
   intros s. unfold work_in_term. run_term; try reflexivity.
   all: match goal with H : pop_fault _ = _ |- _ => apply pop_fault_frame in H; unfold same_but_files_tape in H; tauto end.
+Qed.
+Lemma is_empty_dir_set_cwd s p d : is_empty_dir (set_cwd s p) d = is_empty_dir s d.
+Proof. reflexivity. Qed.
+
+Ltac pf := repeat match goal with H : pop_fault _ = _ |- _ =>
+  apply pop_fault_frame in H; unfold same_but_files_tape in H; destruct H as [[? [? [? [? [? ?]]]]] ?] end.
+
+(* work_in: the only thing the finally block can remove is dir_path, and only when it is empty *)
+Lemma work_in_only_empty ext c s :
+  let d := cwd s ++ [ext] in let r := wrap (WWorkIn ext) c s in
+  (fst r = Raise (EFault FMkdir) /\ dirs (snd r) = dirs s /\ files (snd r) = files s) \/
+  (exists s0 s1, cwd s0 = d /\ In d (dirs s0) /\ incl (dirs s0) (d :: dirs s) /\ c s0 = (fst r, s1) /\
+     files (snd r) = files s1 /\
+     dirs (snd r) = if is_empty_dir s1 d then remove_path d (dirs s1) else dirs s1).
+Proof.
+  cbv zeta. unfold work_in_term. run_term.
+  all: try (right; eexists _, _; split; [|split; [|split; [|split; [eassumption|]]]]; cbn;
+            [reflexivity| first [apply mem_path_In; assumption | left; reflexivity]
+            | first [apply incl_tl, incl_refl
+                    | pf; match goal with H : dirs ?x = _ |- context [dirs ?x] => rewrite H end; apply incl_refl]|];
+            rewrite ?is_empty_dir_set_cwd in *;
+            match goal with H : is_empty_dir _ _ = _ |- _ => rewrite H end; split; reflexivity).
+  - left. pf. intuition congruence.
+  - exfalso. pf.
+    match goal with H1 : mem_path ?d (dirs ?a) = false, H2 : mem_path ?d (dirs ?b) = true, E : dirs ?b = dirs ?a |- _ =>
+      rewrite E in H2; congruence end.
+Qed.
+
+(* ---- work_in_tmp_dir (utils.py:258-330) ---- *)
+Lemma tmpdir_cwd fns kept ll c : restores_cwd (wrap (WTmpDir fns kept ll) c).
+Proof.
+  intros s. unfold work_in_tmp_dir_term. run_term; try reflexivity.
+  all: pf; try congruence.
+Qed.
+
+Lemma tmpdir_removed fns kept ll c s :
+  let r := wrap (WTmpDir fns kept ll) c s in
+  (failed_before_mkdtemp (fst r) /\ dirs (snd r) = dirs s /\ files (snd r) = files s) \/
+  (forall p, In p (dirs (snd r)) \/ In p (files (snd r)) -> prefixb (tmp_path_of ll s) p = false).
+Proof.
+  cbv zeta. unfold work_in_tmp_dir_term, tmp_path_of, failed_before_mkdtemp. run_term.
+  all: try (left; split; [tauto|pf; split; congruence]).
+  all: right; intros q [Hq|Hq]; apply In_remove_tree in Hq as [_ Hq]; pf;
+       match goal with H1 : names ?a = ?n :: _, H2 : names ?a = names ?b |- context [names ?b] =>
+         rewrite <- H2, H1 end; exact Hq.
+Qed.
+
+Lemma tmpdir_kept_files fns kept ll c s :
+  let r := wrap (WTmpDir fns kept ll) c s in let tmp := tmp_path_of ll s in
+  fst r = Ok ->
+  exists s0 s1, c s0 = (Ok, s1) /\ cwd s0 = tmp /\ In tmp (dirs s0) /\
+    forall n, In (tmp ++ [n]) (files s1) -> kept_name kept n = true ->
+      prefixb tmp (cwd s ++ [n]) = false -> In (cwd s ++ [n]) (files (snd r)).
+Proof.
+  cbv zeta. unfold work_in_tmp_dir_term, tmp_path_of. run_term; intros HOk; try discriminate.
+  all: subst.
+  all: match goal with H : do_copy_in _ _ _ = _ |- _ =>
+         let F := fresh "F" in pose proof (do_copy_in_frame _ _ _ _ _ H) as F; unfold same_but_files_tape in F; cbn in F;
+         destruct F as [_ [_ [FD _]]] end.
+  all: pf.
+  all: match goal with H1 : names ?a = ?n :: _, H2 : names ?a = names ?b |- context [names ?b] =>
+         rewrite <- H2, H1 end; cbn [hd].
+  all: eexists _, _; split; [eassumption|]; split; [reflexivity|]; split; [cbn; rewrite FD; left; reflexivity|].
+  all: intros n Hin Hk Hpre; apply In_remove_tree; split; [|exact Hpre].
+  all: match goal with H : do_copy_back _ _ _ _ = (Ok, _) |- _ => apply do_copy_back_ok in H as [A _] end.
+  all: apply A, In_kept_candidates; assumption.
+Qed.
+
+(* a wrapped function that succeeds (and leaves the fault tape empty) makes the whole call succeed,
+   WHEREVER it returns from: either the call returns normally, or it failed before the wrapped function
+   was reached (its result does not depend on the wrapped function at all) *)
+Lemma tmpdir_succeeds_wherever fns kept ll c s :
+  (forall s0, fst (c s0) = Ok /\ tape (snd (c s0)) = []) ->
+  let r := wrap (WTmpDir fns kept ll) c s in
+  fst r = Ok \/ (forall c', wrap (WTmpDir fns kept ll) c' s = r).
+Proof.
+  intros Hc. cbv zeta. unfold work_in_tmp_dir_term. run_term.
+  all: try (left; reflexivity).
+  all: try (right; intros c'; reflexivity).
+  all: match goal with Hcall : ?f ?a = (_, ?b), Hc' : forall s0, fst (?f s0) = Ok /\ _ |- _ =>
+         let Q := fresh "Q" in pose proof (Hc' a) as Q; rewrite Hcall in Q; cbn in Q; destruct Q as [Q1 Q2] end;
+       try discriminate.
+  all: left.
+  all: match goal with Hb : do_copy_back ?cands (Some ?tmp) ?h ?st = (?o, _) |- _ =>
+         let E := fresh "E" in
+         assert (E : exists s', do_copy_back cands (Some tmp) h st = (Ok, s')) by
+           (apply (do_copy_back_succeeds cands (Some tmp) h tmp st eq_refl Q2);
+            intros n Hn; apply kept_candidates_sound in Hn as [q [Hq Hn]]; apply child_name_eq in Hn; subst q; exact Hq);
+         destruct E as [s' Es]; pose proof (eq_trans (eq_sym Hb) Es) as X; inversion X; reflexivity end.
+Qed.
+
+(* ---- run_in_tmp_environment (utils.py:601-642) ---- *)
+Lemma env_restored vars c s k : In k (map fst vars) ->
+  env_get k (env (snd (wrap (WEnv vars) c s))) = env_get k (env s).
+Proof.
+  intros Hk. unfold wrap, run, term_of, run_in_tmp_environment_term. cbn.
+  destruct (c (set_env s (do_set_env vars (env s)))) as [o s1] eqn:Ec. cbn.
+  destruct (do_restore_env_spec (map fst vars) (env s) (env s1) (fun _ => False)) as [e' [R [A _]]]; [tauto|].
+  rewrite map_map in R. rewrite R. destruct o; cbn; apply A; right; exact Hk.
+Qed.
+
+Lemma env_untouched_elsewhere vars c s k : ~ In k (map fst vars) ->
+  exists s0 s1, c s0 = (fst (wrap (WEnv vars) c s), s1) /\ env_get k (env s0) = env_get k (env s) /\
+    env_get k (env (snd (wrap (WEnv vars) c s))) = env_get k (env s1) /\
+    cwd s0 = cwd s /\ config s0 = config s /\ dirs s0 = dirs s /\
+    cwd (snd (wrap (WEnv vars) c s)) = cwd s1 /\ config (snd (wrap (WEnv vars) c s)) = config s1 /\
+    dirs (snd (wrap (WEnv vars) c s)) = dirs s1.
+Proof.
+  intros Hk. unfold wrap, run, term_of, run_in_tmp_environment_term. cbn.
+  destruct (c (set_env s (do_set_env vars (env s)))) as [o s1] eqn:Ec. cbn.
+  destruct (do_restore_env_spec (map fst vars) (env s) (env s1) (fun _ => False)) as [e' [R [_ B]]]; [tauto|].
+  rewrite map_map in R. rewrite R.
+  exists (set_env s (do_set_env vars (env s))), s1. split; [destruct o; exact Ec|].
+  split; [cbn; apply do_set_env_other; exact Hk|].
+  destruct o; cbn; repeat split; apply B; exact Hk.
+Qed.
+
+(* ---- temporary_config (utils.py:34-66) ---- *)
+Lemma config_restored c s : cfg_kept (config s) (config (snd (wrap WConfig c s))).
+Proof.
+  unfold wrap, run, term_of, temporary_config_term. cbn.
+  destruct (c s) as [o s1]. destruct o; cbn; apply cfg_update_kept.
+Qed.
+
+Lemma config_added_keys_stay c s k : cfg_get k (config s) = None ->
+  exists s1, c s = (fst (wrap WConfig c s), s1) /\
+    cfg_get k (config (snd (wrap WConfig c s))) = cfg_get k (config s1).
+Proof.
+  intros H. unfold wrap, run, term_of, temporary_config_term. cbn.
+  destruct (c s) as [o s1]. exists s1. destruct o; cbn; (split; [reflexivity|apply cfg_update_other; exact H]).
+Qed.
+
+(* ---- check_sufficient_memory (utils.py:121-143) ---- *)
+Lemma mem_check_fails c s t : tape s = true :: t -> wrap WMem c s = (Raise (EFault FMem), set_tape s t).
+Proof.
+  intros H. unfold wrap, run, term_of, check_sufficient_memory_term. cbn. rewrite pop_fault_tape, H. reflexivity.
+Qed.
+Lemma mem_check_passes c s : wrap WMem c s =
+  match tape s with [] => c s | true :: t => (Raise (EFault FMem), set_tape s t) | false :: t => c (set_tape s t) end.
+Proof.
+  unfold wrap, run, term_of, check_sufficient_memory_term. cbn. rewrite pop_fault_tape.
+  destruct (tape s) as [|[|] t]; cbn; try reflexivity.
+  - destruct (c s); reflexivity.
+  - destruct (c (set_tape s t)); reflexivity.
+Qed.
+(* ------------------------------------------------------------------ what each wrapper lets through *)
+Lemma wenv_shape vars c s :
+  let s0 := set_env s (do_set_env vars (env s)) in
+  exists e', wrap (WEnv vars) c s = (fst (c s0), set_env (snd (c s0)) e') /\
+    (forall k, In k (map fst vars) -> env_get k e' = env_get k (env s)) /\
+    (forall k, ~ In k (map fst vars) -> env_get k e' = env_get k (env (snd (c s0)))).
+Proof.
+  cbv zeta. unfold wrap, run, term_of, run_in_tmp_environment_term. cbn.
+  destruct (c (set_env s (do_set_env vars (env s)))) as [o s1] eqn:Ec. cbn.
+  destruct (do_restore_env_spec (map fst vars) (env s) (env s1) (fun _ => False)) as [e' [R [A B]]]; [tauto|].
+  rewrite map_map in R. rewrite R. exists e'. split; [destruct o; reflexivity|]. split; [intros k Hk; apply A; right; exact Hk|exact B].
+Qed.
+
+Lemma wcfg_shape c s :
+  wrap WConfig c s = (fst (c s), set_config (snd (c s)) (cfg_update (config (snd (c s))) (config s))).
+Proof.
+  unfold wrap, run, term_of, temporary_config_term. cbn. destruct (c s) as [o s1]. destruct o; reflexivity.
+Qed.
+
+Lemma workin_passthrough ext c s :
+  let r := wrap (WWorkIn ext) c s in
+  (env (snd r) = env s /\ config (snd r) = config s) \/
+  (exists s0 o1 s1, c s0 = (o1, s1) /\ env s0 = env s /\ config s0 = config s /\
+     env (snd r) = env s1 /\ config (snd r) = config s1).
+Proof.
+  cbv zeta. unfold work_in_term. run_term.
+  all: try (right; eexists _, _, _; split; [eassumption|]; cbn; pf; repeat split; congruence).
+  all: left; pf; split; congruence.
+Qed.
+
+Lemma tmpdir_passthrough fns kept ll c s :
+  let r := wrap (WTmpDir fns kept ll) c s in
+  (env (snd r) = env s /\ config (snd r) = config s /\ incl (dirs (snd r)) (dirs s)) \/
+  (exists s0 o1 s1 tmp, c s0 = (o1, s1) /\ env s0 = env s /\ config s0 = config s /\ dirs s0 = tmp :: dirs s /\
+     env (snd r) = env s1 /\ config (snd r) = config s1 /\ dirs (snd r) = remove_tree tmp (dirs s1)).
+Proof.
+  cbv zeta. unfold work_in_tmp_dir_term. run_term.
+  all: repeat match goal with H : do_copy_in _ _ _ = _ |- _ =>
+         apply do_copy_in_frame in H; unfold same_but_files_tape in H; cbn in H; destruct H as [? [? [? [? [? ?]]]]] end.
+  all: repeat match goal with H : do_copy_back _ _ _ _ = _ |- _ =>
+         apply do_copy_back_frame in H; unfold same_but_files_tape in H; cbn in H; destruct H as [? [? [? [? [? ?]]]]] end.
+  all: pf.
+  all: try (match goal with Hc : ?f (set_cwd ?a ?t) = (?o, ?b) |- _ =>
+              right; exists (set_cwd a t), o, b, t; split; [exact Hc|]; cbn; repeat split;
+              first [congruence | repeat (match goal with H : dirs ?x = _ |- context [dirs ?x] => rewrite H end); reflexivity] end).
+  all: left; cbn; (split; [congruence|]); (split; [congruence|]).
+  all: try (intros q Hq; congruence).
+  all: intros q Hq; apply In_remove_tree in Hq as [Hq Hp];
+       match goal with H : dirs _ = _ :: dirs _ |- _ => rewrite H in Hq end;
+       destruct Hq as [<-|Hq]; [rewrite prefixb_refl in Hp; discriminate|congruence].
+Qed.
+
+(* ------------------------------------------------------------------ nesting: one layer *)
+Lemma wrap_keeps_cwd w c : restores_cwd c -> restores_cwd (wrap w c).
+Proof.
+  intros H s. destruct w as [ext|fns kept ll|vars| |].
+  - apply work_in_cwd.
+  - apply tmpdir_cwd.
+  - destruct (wenv_shape vars c s) as [e' [E _]]. rewrite E. cbn. apply (H (set_env s _)).
+  - rewrite wcfg_shape. cbn. apply H.
+  - rewrite mem_check_passes. destruct (tape s) as [|[|] t]; [apply H|reflexivity|apply (H (set_tape s t))].
+Qed.
+
+Lemma wrap_keeps_env_at k w c : restores_env_at k c -> restores_env_at k (wrap w c).
+Proof.
+  intros H s. destruct w as [ext|fns kept ll|vars| |].
+  - destruct (workin_passthrough ext c s) as [[E _]|[s0 [o1 [s1 [Ec [E0 [_ [E1 _]]]]]]]]; [rewrite E; reflexivity|].
+    rewrite E1, <- E0. specialize (H s0). rewrite Ec in H. exact H.
+  - destruct (tmpdir_passthrough fns kept ll c s) as [[E _]|[s0 [o1 [s1 [tmp [Ec [E0 [_ [_ [E1 _]]]]]]]]]]; [rewrite E; reflexivity|].
+    rewrite E1, <- E0. specialize (H s0). rewrite Ec in H. exact H.
+  - destruct (wenv_shape vars c s) as [e' [E [A B]]]. rewrite E. cbn.
+    destruct (in_dec string_dec k (map fst vars)) as [I|N]; [apply A; exact I|].
+    rewrite (B k N). rewrite (H (set_env s _)). cbn. apply do_set_env_other. exact N.
+  - rewrite wcfg_shape. cbn. apply H.
+  - rewrite mem_check_passes. destruct (tape s) as [|[|] t]; [apply H|reflexivity|apply (H (set_tape s t))].
+Qed.
+
+Lemma wrap_keeps_cfg w c : restores_cfg c -> restores_cfg (wrap w c).
+Proof.
+  intros H s. destruct w as [ext|fns kept ll|vars| |].
+  - destruct (workin_passthrough ext c s) as [[_ E]|[s0 [o1 [s1 [Ec [_ [E0 [_ E1]]]]]]]]; [rewrite E; apply cfg_kept_refl|].
+    rewrite E1, <- E0. specialize (H s0). rewrite Ec in H. exact H.
+  - destruct (tmpdir_passthrough fns kept ll c s) as [[_ [E _]]|[s0 [o1 [s1 [tmp [Ec [_ [E0 [_ [_ [E1 _]]]]]]]]]]]; [rewrite E; apply cfg_kept_refl|].
+    rewrite E1, <- E0. specialize (H s0). rewrite Ec in H. exact H.
+  - destruct (wenv_shape vars c s) as [e' [E _]]. rewrite E. cbn. apply (H (set_env s _)).
+  - apply config_restored.
+  - rewrite mem_check_passes. destruct (tape s) as [|[|] t]; [apply H|apply cfg_kept_refl|apply (H (set_tape s t))].
+Qed.
+
+Lemma wrap_keeps_no_new_dirs w c : is_work_in w = false -> no_new_dirs c -> no_new_dirs (wrap w c).
+Proof.
+  intros W H s. destruct w as [ext|fns kept ll|vars| |]; [discriminate| | | |].
+  - destruct (tmpdir_passthrough fns kept ll c s) as [[_ [_ E]]|[s0 [o1 [s1 [tmp [Ec [_ [_ [D0 [_ [_ D1]]]]]]]]]]]; [exact E|].
+    rewrite D1. intros q Hq. apply In_remove_tree in Hq as [Hq Hp].
+    specialize (H s0). rewrite Ec in H. cbn in H. apply H in Hq. rewrite D0 in Hq.
+    destruct Hq as [<-|Hq]; [rewrite prefixb_refl in Hp; discriminate|exact Hq].
+  - destruct (wenv_shape vars c s) as [e' [E _]]. rewrite E. cbn. apply (H (set_env s _)).
+  - rewrite wcfg_shape. cbn. apply H.
+  - rewrite mem_check_passes. destruct (tape s) as [|[|] t]; [apply H|apply incl_refl|apply (H (set_tape s t))].
+Qed.
+
+(* work_in leaves at most its own (named, non-scratch) directory *)
+Lemma work_in_at_most_its_dir ext c s : no_new_dirs c ->
+  incl (dirs (snd (wrap (WWorkIn ext) c s))) ((cwd s ++ [ext]) :: dirs s).
+Proof.
+  intros H. destruct (work_in_only_empty ext c s) as [[_ [E _]]|[s0 [s1 [C0 [D0 [I0 [Ec [_ E]]]]]]]].
+  - rewrite E. apply incl_tl, incl_refl.
+  - cbv zeta in E. rewrite E. specialize (H s0). rewrite Ec in H. cbn in H.
+    destruct (is_empty_dir s1 (cwd s ++ [ext])).
+    + intros q Hq. apply In_remove_path in Hq as [Hq _]. apply I0, H, Hq.
+    + intros q Hq. apply I0, H, Hq.
+Qed.
+
+(* ------------------------------------------------------------------ nesting: any depth *)
+Lemma stack_keeps_cwd ws c : restores_cwd c -> restores_cwd (run_stack ws c).
+Proof. intros H. induction ws as [|w r IH]; cbn; [exact H|apply wrap_keeps_cwd; exact IH]. Qed.
+
+Lemma stack_restores_cwd_always ws c :
+  existsb restores_cwd_always ws = true -> restores_cwd (run_stack ws c).
+Proof.
+  induction ws as [|w r IH]; cbn; [discriminate|]. intros H.
+  destruct (restores_cwd_always w) eqn:E.
+  - destruct w; try discriminate; [apply work_in_cwd|apply tmpdir_cwd].
+  - cbn in H. apply wrap_keeps_cwd, IH, H.
+Qed.
+
+Lemma stack_keeps_env_at k ws c : restores_env_at k c -> restores_env_at k (run_stack ws c).
+Proof. intros H. induction ws as [|w r IH]; cbn; [exact H|apply wrap_keeps_env_at; exact IH]. Qed.
+
+Lemma stack_restores_env_var ws c vars k :
+  In (WEnv vars) ws -> In k (map fst vars) -> restores_env_at k (run_stack ws c).
+Proof.
+  induction ws as [|w r IH]; cbn; [tauto|]. intros [->|H] Hk.
+  - intros s. apply env_restored. exact Hk.
+  - apply wrap_keeps_env_at, IH; assumption.
+Qed.
+
+Lemma stack_keeps_cfg ws c : restores_cfg c -> restores_cfg (run_stack ws c).
+Proof. intros H. induction ws as [|w r IH]; cbn; [exact H|apply wrap_keeps_cfg; exact IH]. Qed.
+
+Lemma cfg_kept_trans a b c : cfg_kept a b -> cfg_kept b c -> cfg_kept a c.
+Proof. intros H1 H2 k v H. apply H2, H1, H. Qed.
+
+Lemma stack_restores_cfg_always ws c : In WConfig ws -> restores_cfg (run_stack ws c).
+Proof.
+  induction ws as [|w r IH]; cbn; [tauto|]. intros [->|H].
+  - intros s. apply config_restored.
+  - apply wrap_keeps_cfg, IH, H.
+Qed.
+
+Lemma stack_keeps_no_new_dirs ws c :
+  forallb (fun w => negb (is_work_in w)) ws = true -> no_new_dirs c -> no_new_dirs (run_stack ws c).
+Proof.
+  intros W H. induction ws as [|w r IH]; cbn; [exact H|]. cbn in W. apply andb_true_iff in W as [W1 W2].
+  apply wrap_keeps_no_new_dirs; [destruct (is_work_in w); [discriminate|reflexivity]|apply IH; exact W2].
+Qed.
+
+Lemma stack_restores ws c : restores c -> restores (run_stack ws c).
+Proof.
+  intros [H1 [H2 H3]]. split; [apply stack_keeps_cwd; exact H1|]. split; [|apply stack_keeps_cfg; exact H3].
+  intros s k. apply (stack_keeps_env_at k ws c (fun s' => H2 s' k)).
+Qed.
+(* ------------------------------------------------------------------ per-program execute closures *)
+Definition program_ok (p : program) : bool :=
+  outermost_is_tmpdir p && externals_guarded p && raw_setenv_free p && has_external p.
+
+(* a finite sweep over the GENERATED table: every execute closure has work_in_tmp_dir outermost, runs
+   the external program only through a memory-checked entry point, and never assigns os.environ itself *)
+Lemma programs_shape : forallb program_ok programs = true.
+Proof. vm_compute. reflexivity. Qed.
+
+Lemma program_in_shape p : In p programs ->
+  outermost_is_tmpdir p = true /\ externals_guarded p = true /\ raw_setenv_free p = true /\ has_external p = true.
+Proof.
+  intros H. pose proof programs_shape as S. rewrite forallb_forall in S. specialize (S p H).
+  unfold program_ok in S. repeat (apply andb_true_iff in S as [S ?]). tauto.
+Qed.
+
+Lemma entry_callee_keeps (P : callee_t -> Prop) rt ext e :
+  (forall ws c, P c -> P (run_stack ws c)) -> P ext -> P (entry_callee rt ext e).
+Proof. intros K H. unfold entry_callee. destruct (lookup_ext e externals); [apply K; exact H|exact H]. Qed.
+
+Lemma exec_body_env_at rt ext k b :
+  forallb (fun b => match b with BSetEnvRaw _ => false | _ => true end) b = true ->
+  restores_env_at k ext -> restores_env_at k (exec_body rt ext b).
+Proof.
+  intros F H. induction b as [|st r IH]; intros s; cbn; [reflexivity|].
+  cbn in F. apply andb_true_iff in F as [F1 F2].
+  destruct (exec_bstmt rt ext st s) as [o s1] eqn:E.
+  assert (E1 : env_get k (env s1) = env_get k (env s)).
+  { destruct st as [k'|e|src suf|n]; cbn in E; try discriminate.
+    - pose proof (entry_callee_keeps (restores_env_at k) rt ext e (stack_keeps_env_at k) H s) as Q. rewrite E in Q. exact Q.
+    - destruct (mem_path (cwd s ++ [src]) (files s)); inversion E; subst; reflexivity.
+    - inversion E; subst; reflexivity. }
+  destruct o; cbn; [rewrite (IH F2 s1); exact E1|exact E1].
+Qed.
+
+Lemma exec_body_cwd rt ext b : restores_cwd ext -> restores_cwd (exec_body rt ext b).
+Proof.
+  intros H. induction b as [|st r IH]; intros s; cbn; [reflexivity|].
+  destruct (exec_bstmt rt ext st s) as [o s1] eqn:E.
+  assert (E1 : cwd s1 = cwd s).
+  { destruct st as [k'|e|src suf|n]; cbn in E.
+    - inversion E; subst; reflexivity.
+    - pose proof (entry_callee_keeps restores_cwd rt ext e stack_keeps_cwd H s) as Q. rewrite E in Q. exact Q.
+    - destruct (mem_path (cwd s ++ [src]) (files s)); inversion E; subst; reflexivity.
+    - inversion E; subst; reflexivity. }
+  destruct o; cbn; [rewrite (IH s1); exact E1|exact E1].
+Qed.
+
+Lemma exec_body_cfg rt ext b : restores_cfg ext -> restores_cfg (exec_body rt ext b).
+Proof.
+  intros H. induction b as [|st r IH]; intros s; cbn; [apply cfg_kept_refl|].
+  destruct (exec_bstmt rt ext st s) as [o s1] eqn:E.
+  assert (E1 : cfg_kept (config s) (config s1)).
+  { destruct st as [k'|e|src suf|n]; cbn in E.
+    - inversion E; subst; apply cfg_kept_refl.
+    - pose proof (entry_callee_keeps restores_cfg rt ext e stack_keeps_cfg H s) as Q. rewrite E in Q. exact Q.
+    - destruct (mem_path (cwd s ++ [src]) (files s)); inversion E; subst; apply cfg_kept_refl.
+    - inversion E; subst; apply cfg_kept_refl. }
+  destruct o; cbn; [eapply cfg_kept_trans; [exact E1|apply IH]|exact E1].
+Qed.
+
+Lemma run_program_tmpdir rt ext p : outermost_is_tmpdir p = true ->
+  exists fns kept ll c, run_program rt ext p = wrap (WTmpDir fns kept ll) c.
+Proof.
+  unfold outermost_is_tmpdir, run_program. destruct (p_stack p) as [|[k ll|ks|] r]; try discriminate. intros _.
+  cbn. eexists _, _, _, _. reflexivity.
+Qed.
+
+Lemma run_program_restores rt ext p : raw_setenv_free p = true -> restores ext -> restores (run_program rt ext p).
+Proof.
+  intros F [H1 [H2 H3]]. unfold run_program. apply stack_restores. split; [apply exec_body_cwd; exact H1|].
+  split; [|apply exec_body_cfg; exact H3].
+  intros s k. apply (exec_body_env_at rt ext k (p_body p) F (fun s' => H2 s' k)).
+Qed.
+
+Lemma run_program_env_named rt ext p ks k :
+  In (DEnv ks) (p_stack p) -> In k ks -> restores_env_at k (run_program rt ext p).
+Proof.
+  intros Hd Hk. unfold run_program.
+  apply (stack_restores_env_var _ _ (map (fun k => (k, r_envval rt k)) ks) k).
+  - change (WEnv (map (fun k0 => (k0, r_envval rt k0)) ks)) with (wrapper_of_deco rt (DEnv ks)). apply in_map. exact Hd.
+  - rewrite map_map. cbn. rewrite map_id. exact Hk.
+Qed.
+
+Lemma run_program_mem rt ext p e s t : externals_guarded p = true -> In (BExternal e) (p_body p) ->
+  tape s = true :: t -> entry_callee rt ext e s = (Raise (EFault FMem), set_tape s t).
+Proof.
+  intros G Hin Ht. unfold externals_guarded in G. rewrite forallb_forall in G. specialize (G _ Hin). cbv beta iota in G.
+  unfold entry_callee. destruct (lookup_ext e externals) as [[|[| |] r]|]; try discriminate.
+  cbn. apply mem_check_fails. exact Ht.
 Qed.
